@@ -37,6 +37,8 @@ R_TEMPLATES = [
     'forall e in $t loop e = e + $v; forall f in $t loop c = f; end loop; end loop; $sx = $sx + "y"; $v = $v + 1;',
     'begin for $v in 3 to 1 desc loop raise oops; end loop; exception when oops then $v = 0; end; $t.concat(4); $t.put(0, $v);',
     # a type-constrained variable re-typed within what its constraint allows (another element type / dimension), then more statements
+    'r9 = 5; tr9 = "x"; c = c + 1; print c r9 tr9; r9 = tup("s", 2);',
+    'r9 = tup(2.5); tr9 = tab(1, tup(2.5, 1)); r9.set@1(0.5); print r9@1 tr9.count();',
     '$t = tab(3, "x"); $t.concat("y"); print $t.count(); c = c + 1; print c; a = $t.at(0) + "z";',
     '$t = tab(2, 2.5); $v = 2.5; $sx = str($v); for $v2 in 1 to 2 loop c = c + $v2; end loop; print c $sx;',
     '$t = tab(1, tab(1, 1)); $t.at(0).concat(2); forall zq in $t loop c = zq.count(); end loop; print c;',
@@ -73,12 +75,23 @@ class Sh:
         add_violation(self.res, "C11|" + cls, what, wit)
 
     def triple(self, ptext, rtext, qtext, label, pfuncs):
+        if self.route == "istmt":
+            # statement-at-a-time (interactive) route: `resetstop` stands in for the separate parse step so that the replies keep their positions
+            ops = ["new A 0", "resetstop A", "istmt A %s 20000" % hx(ptext), "resetstop A", "dump A",
+                   "istmt A %s 20000" % hx(rtext), "require perr", "dump A",
+                   "resetstop A", "istmt A %s 20000" % hx(qtext), "resetstop A", "dump A",
+                   "new B 0", "resetstop B", "istmt B %s 20000" % hx(ptext), "resetstop B",
+                   "resetstop B", "istmt B %s 20000" % hx(qtext), "resetstop B", "dump B"]
+            return self._judge(ops, ptext, rtext, qtext, label, pfuncs)
         P, R = ("cparse", "crun") if self.route == "capi" else ("parse", "run")
         ops = ["new A 0", "%s A P %s" % (P, hx(ptext)), "%s A P 20000" % R, "resetstop A", "dump A",
                "%s A R %s" % (P, hx(rtext)), "require perr", "dump A",
                "%s A Q %s" % (P, hx(qtext)), "%s A Q 20000" % R, "resetstop A", "dump A",
                "new B 0", "%s B P2 %s" % (P, hx(ptext)), "%s B P2 20000" % R, "resetstop B",
                "%s B Q2 %s" % (P, hx(qtext)), "%s B Q2 20000" % R, "resetstop B", "dump B"]
+        return self._judge(ops, ptext, rtext, qtext, label, pfuncs)
+
+    def _judge(self, ops, ptext, rtext, qtext, label, pfuncs):
         r = self.probe.case(ops)
         self.res["evaluations"] += 1
         wit = {"ops": ops, "prefix": ptext, "rejected": rtext, "probe": qtext, "how": label}
@@ -94,6 +107,9 @@ class Sh:
             raise HarnessFailure("prefix rejected: " + rep[1][:200] + "\n" + ptext)
         if not rep[5].startswith("perr"):
             bump(self.res, "variant_accepted_by_parser"); return "accepted"
+        if self.route == "istmt" and " nst=0" not in rep[5]:
+            # statement-at-a-time: the statements before the refused one were accepted and executed, which legitimately changes the state
+            bump(self.res, "istmt_text_partly_executed"); return "accepted"
         bump(self.res, "rejected_texts")
         rep = rep[:6] + rep[7:]       # drop the reply of `require`
         d0 = parse_dump(rep[4]); d1 = parse_dump(rep[6])
@@ -139,8 +155,57 @@ class Sh:
             self.res["samples"].append({"route": self.route, "rejected": rtext[-160:], "how": label, "parse_error": rep[5][:40], "probe_outcome": qa_run[:30]})
         return "ok"
 
+    def includes(self):
+        """the rejected text is `include "file";` whose source redefines functions (definitions take effect while parsing) and then fails"""
+        import tempfile, shutil, os
+        work = tempfile.mkdtemp(prefix="c11inc_")
+        probe = Probe("asan", cwd=work, timeout=40)
+        try:
+            pre = ('function f(x) return integer is begin return x + 1; end;\nfunction g(x, y) return integer is begin return f(x) * y; end;\n'
+                   'a = 5; s = "keep"; t = tab(2, 1); $v = 3;\n')
+            q = 'print "@@1:" f(1) " " g(2, 3) " " a " " s " " t.count() " " $v;\n'
+            bads = ['function f(x) return integer is begin return x + 100; end;\nb = (1;\n',
+                    'function g(x, y) return integer is begin return 0; end;\nfunction f(x) return integer is begin return 0; end;\nprint 1 +;\n',
+                    'a = "retyped"; s = 5;\nfunction h(z) return integer is begin return z; end;\nfunction f(x) return integer is begin return h(x); end;\nend loop;\n',
+                    'function f(x) return integer is begin return x + 100;\n', 't = "x"; $v = 4;\nfunction f(x, y, z) return integer is begin return 1; end;\n) ;\n']
+            for i, bad in enumerate(bads):
+                with open(os.path.join(work, "bad%d.bloc" % i), "w") as fh: fh.write(bad)
+                rtext = 'include "bad%d.bloc";\n' % i
+                for route in ("cpp", "istmt"):
+                    if route == "cpp":
+                        ops = ["new A 1", "parse A P %s" % hx(pre), "run A P 1000", "dump A", "parse A R %s" % hx(rtext), "dump A", "parse A Q %s" % hx(q), "run A Q 1000"]
+                    else:
+                        ops = ["new A 1", "resetstop A", "istmt A %s 1000" % hx(pre), "dump A", "istmt A %s 1000" % hx(rtext), "dump A", "resetstop A", "istmt A %s 1000" % hx(q)]
+                    rr = probe.case(ops)
+                    self.res["evaluations"] += 1; bump(self.res, "include_rejections")
+                    wit = {"ops": ops, "prefix": pre, "rejected": rtext + " -- " + bad, "probe": q, "how": "include/" + route}
+                    if rr.crashed:
+                        add_violation(self.res, "C11|crash:%s" % rr.sig, "crash after a rejected include (%s): %s" % (route, rr.sig), dict(wit, report=rr.report[-3000:])); continue
+                    rep = rr.replies
+                    if not rep[4].startswith("perr"):
+                        raise HarnessFailure("include of a bad source was not rejected: %s" % rep[4][:100])
+                    d0, d1 = parse_dump(rep[3]), parse_dump(rep[5])
+                    bad_ = None
+                    for key, f0 in d0["fns"].items():
+                        f1 = d1["fns"].get(key)
+                        if f1 is None or any(re.sub(r"#\d+", "", f0[x]) != re.sub(r"#\d+", "", f1[x]) for x in ("params", "ret", "body")):
+                            bad_ = "function %s/%d %s" % (key[0], key[1], "disappeared" if f1 is None else "changed"); break
+                    for name, s0 in d0["syms"].items():
+                        s1 = d1["syms"].get(name)
+                        if not bad_ and (s1 is None or any(re.sub(r"#\d+", "", s0[x]) != re.sub(r"#\d+", "", s1[x]) for x in ("type", "flags", "value"))):
+                            bad_ = "variable %s went from %s %s to %s" % (name, s0["type"], s0["value"][:30], s1 and (s1["type"] + " " + s1["value"][:30]))
+                    out = unhx(rfields(rep[7])[2].get("out", "-"))
+                    if not bad_ and ld.markers(out) != ["@@1:2 9 5 keep 2 3"]:
+                        bad_ = "the probe printed %r" % out[-80:]
+                    if bad_:
+                        self.viol("include|%s" % bad_.split(" ")[0], "after the rejected `%s` (%s route; source: %s): %s" % (rtext.strip(), route, bad[:60].replace("\n", " "), bad_), wit); continue
+                    self.res["nontrivial"].add(case_hash(["inc", bad, route]))
+        finally:
+            probe.close(); shutil.rmtree(work, ignore_errors=True)
+
     def run(self):
         r = self.rnd
+        if self.desc["k"] in (0, 100): self.includes()
         nP = 4 if self.desc["tier"] == "quick" else 40
         perR = 22 if self.desc["tier"] == "quick" else 120
         for _ in range(nP):
@@ -149,8 +214,25 @@ class Sh:
             b = ml.bounded(funcs, prog)
             if b is None or b[1][0] == "error":
                 continue        # prefixes end normally (any outcome would do, this keeps P's variables all assigned)
-            ptext = ml.render(funcs, prog[:10], r) + '$v = 3; $v2 = 1; $t = tab(2, 1); $sx = "s";\n' + "\n".join(ml.rstmts(prog[10:], 0, r)) + "\n"
+            ptext = ml.render(funcs, prog[:10], r) + '$v = 3; $v2 = 1; $t = tab(2, 1); $sx = "s"; r9 = tup(1, "a", true); tr9 = tab(2, tup(1, "a"));\n' + "\n".join(ml.rstmts(prog[10:], 0, r)) + "\n"
             qtext = "\n".join(ml.rstmts(ml.probe_program(r, funcs), 0, r)) + "\n"
+            if self.route == "istmt":
+                # the prefix also redefines its first function successfully (a definition that replaces another one is kept by the function table
+                # together with a backup of the old one); the refused texts are single statements
+                f0 = funcs[0]
+                ptext += "\n".join(ml.rfunc(dict(f0, body=[("return", ("int", 515151))]), None)) + "\n"
+                singles = []
+                for f in funcs:
+                    singles.append("\n".join(ml.rfunc(dict(f, body=[("print", 1, [("int", 1)]), ("return", ("int", 7))]), None)))
+                singles.append("function newfn(q:integer) return integer is begin for li in 1 to 2 loop q = q + li; end loop; return q; end;")
+                singles.append("function fn0(x0, x1, x2, x3, x4) return string is begin begin x0 = 1; exception when others then x1 = 2; end; return \"five\"; end;")
+                singles += ['for i in 1 to 3 loop a = a + i; forall e in t loop e = e + 1; end loop; end loop;', 'begin a = 1 / 0; exception when divide_by_zero then a = "dz"; when others then a = 2; end;',
+                            'if a > b then a = "x"; elsif p then b = tab(2, 1); else c = tup(1, 2); end if;', 'forall e in $t loop e = e + $v; forall f in $t loop c = f; end loop; end loop;']
+                for src in singles:
+                    for how, rt in variants(src, r, perR):
+                        self.triple(ptext, rt, qtext, how, funcs)
+                        if self.res["counters"].get("worker_crashes", 0) > CRASH_BUDGET: return
+                continue
             # rejected texts: templates + another generated program over the same names (redefines fn0.., retypes variables)
             sources = list(R_TEMPLATES)
             g2 = ml.Gen(r, r.choice(["functions", "loops", "errors"]), nfuncs=r.randint(1, 3))
@@ -167,7 +249,8 @@ class Sh:
 
 
 def plan(tier, seed):
-    return [{"k": k, "n": 16, "seed": seed, "tier": tier, "route": "cpp" if k % 2 == 0 else "capi"} for k in range(16)]
+    return [{"k": k, "n": 16, "seed": seed, "tier": tier, "route": "cpp" if k % 2 == 0 else "capi"} for k in range(16)] + \
+           [{"k": 100 + k, "n": 4, "seed": seed, "tier": tier, "route": "istmt"} for k in range(4)]
 
 
 def run_shard(desc):
